@@ -1239,8 +1239,8 @@ def _first_exception_ok(ck, cb, run):
         lists = [l for (_e, _c, _g, l) in cs if l is not None]
         there = ff.present(True, r.exc, at, lists, flag(True))
         for (entry, commit, gates, lst) in cs:
-            # flag not set: the element is not chosen (or the choice is gated by the flag)
-            off = not (set(commit) & after_off) or any(eval3(cb, t, n, flag(False)) is (not arm) for (t, n, arm) in gates)
+            # flag not set: the raise is not reached, or the element is not chosen (or the choice is gated by the flag)
+            off = not (set(cb.nodes(r)) & after_off) or not (set(commit) & after_off) or any(eval3(cb, t, n, flag(False)) is (not arm) for (t, n, arm) in gates)
             # flag set and a failing element present: the gates select this case
             on = all(eval3(cb, t, n, there) is arm for (t, n, arm) in gates)
             if not (off and on):
